@@ -162,3 +162,48 @@ def run(chk):
                 what = "%s: %s" % (src, bad)
             chk.violation(sig, what, {"expr": src, "expected": repr(exp), "observed": r})
     chk.count("unspecified_corners_skipped", n_unspec)
+    # ---- many applications in one execution, operands built at run time (a result must not depend on what was computed
+    # before it): value-expected items replayed in batches through an identity function, string repetition of fresh strings
+    vitems = [(src, exp) for (src, exp, tag) in items if exp[0] == "value" and len(src) < 200]
+    seqs = []
+    for t in range(60 if quick else 1500):
+        batch = [rng.choice(vitems) for _ in range(rng.randint(20, 60))]
+        # the same expression again later in the batch, and right after a different one with the same operator
+        batch += [batch[0], batch[1], batch[0]]
+        prog = "fn id(x) { x }\nlet __o = [];\n" + "\n".join("push(__o, id(%s));" % src for src, _ in batch)
+        seqs.append((prog, [exp[1] for _, exp in batch], "batch"))
+    for t in range(20 if quick else 400):
+        n = rng.choice([1, 2, 7, 33, 40, 64, 100])
+        k = rng.randint(20, 60)
+        width = rng.choice([1, 2, 3, 10])
+        prog = ("let __o = []; let i = 0;\nwhile i < %d { let s = str(i %% %d) + %s; push(__o, s * %d); let t = %s + str(i); push(__o, t * %d); i = i + 1; }"
+                % (k, rng.choice([3, 7, 1000]), lit("ab"[:width % 3] + "q" * (width // 3)), n, lit("z" * width), n))
+        expv = []
+        mod = int(prog.split("i % ")[1].split(")")[0])
+        suffix = "ab"[:width % 3] + "q" * (width // 3)
+        for i in range(k):
+            expv.append((str(i % mod) + suffix) * n)
+            expv.append(("z" * width + str(i)) * n)
+        seqs.append((prog, expv, "repeat-fresh-strings"))
+    scases = [Case("s%d" % i, prog, {"globals": "__o", "steps": 400000}) for i, (prog, _, _) in enumerate(seqs)]
+    sres = core.run_cases(scases)
+    from .val import canon
+    for i, (prog, expv, fam) in enumerate(seqs):
+        r = sres.get("s%d" % i)
+        if r is None:
+            chk.inconc("missing result")
+            continue
+        if r.get("outcome") == "panic":
+            chk.violation("panic|" + core.panic_site_sig(r["panic"]["loc"], r["panic"]["msg"]), "operator sequence panics: %s" % r["panic"]["msg"], {"src": prog[:2000]})
+            continue
+        if r.get("outcome") != "ok":
+            chk.inconc("operator sequence: %s" % r.get("outcome"))
+            continue
+        got = list(canon_dump(r["globals"]["__o"])[1])
+        want = list(expv) if fam == "batch" else [canon(v) for v in expv]
+        chk.observed(("sequence", fam, len(want) // 20))
+        if got != want:
+            k_ = next((j for j in range(min(len(got), len(want))) if got[j] != want[j]), min(len(got), len(want)))
+            chk.violation("sequence|%s" % fam, "in one execution of %d operator applications, application #%d gives %s, on its own it gives %s" % (
+                len(want), k_, core.short(show(got[k_]), 80) if k_ < len(got) else "<nothing>", core.short(show(want[k_]), 80) if k_ < len(want) else "<nothing>"),
+                {"src": prog[:3000], "index": k_})
